@@ -107,6 +107,20 @@ def run(model: Model, rep: Report) -> None:
     r4.check("".join(unparse(ca.node).split()).endswith("forobjinself._objs:obj.analyze(laparams)"), site(ca), ca.qualname, "a container analyses each of its children", why="changed")
     src = unparse(an.node)
     r4.check("for obj in empties:\n        obj.analyze(laparams)" in src or "forobjinempties:obj.analyze(laparams)" in "".join(src.split()), site(an), an.qualname, "empty lines are analysed explicitly (they are not part of any box)", why="empties not analysed")
+    # path-sensitive: from the statement that sets the empty lines aside, every path to the end of analyze passes their analysis,
+    # and every path passes an analysis of the text boxes (directly or through the groups)
+    ga = build_cfg(an.node, exc_edges=False)
+    split = [n.id for n in ga.nodes if n.kind == "stmt" and n.ast is not None and "".join(unparse(n.ast).split()).replace("(empties,textlines)", "empties,textlines").startswith("empties,textlines=fsplit(")]
+    if not split:
+        raise AnchorMissing("analyze: the empties/textlines split was not found")
+
+    def loop_over(nd, coll: str) -> bool:
+        return nd.kind == "for" and nd.ast is not None and "".join(unparse(nd.ast.iter).split()) == coll and any(isinstance(c, ast.Call) and isinstance(c.func, ast.Attribute) and c.func.attr == "analyze" for c in ast.walk(nd.ast))
+
+    w1 = ga.all_path_pass(split[0], lambda nd: loop_over(nd, "empties")) if split else [0]
+    r4.check(w1 is None, site(an), an.qualname, "empty lines are analysed on every path (flat and grouped)", why="a path from the empties/textlines split to the end of analyze never analyses the empty lines: they keep no line break")
+    w2 = ga.all_path_pass(split[0], lambda nd: loop_over(nd, "textboxes") or loop_over(nd, "self.groups")) if split else [0]
+    r4.check(w2 is None, site(an), an.qualname, "text boxes are analysed on every path", why="a path skips analysing the boxes")
     flat = "".join(src.split())
     r4.check("fortextboxintextboxes:textbox.analyze(laparams)" in flat and "forgroupinself.groups:group.analyze(laparams)" in flat, site(an), an.qualname, "text boxes are analysed on both the flat and the grouped path", why="a path skips analysing the boxes")
     for cls in ("LTTextBoxHorizontal", "LTTextBoxVertical", "LTTextGroupLRTB", "LTTextGroupTBRL"):
@@ -160,6 +174,13 @@ def run(model: Model, rep: Report) -> None:
 
     # ---------------------------------------------------------------- R11
     _group_textboxes(model, rep)
+    # ---------------------------------------------------------------- R12
+    r12 = rep.rule("C08-R12", "EFFECTS", "layout items keep identity semantics: the grouping code puts them into sets, dictionaries and `uniq`, so no class of the hierarchy defines __eq__/__hash__", 20)
+    for cq, ci in sorted(model.classes.items()):
+        if not cq.startswith(L) or not (cq == L + "LTItem" or model.is_subclass(cq, L + "LTItem")):
+            continue
+        defined = [m for m in ("__eq__", "__ne__", "__hash__") if m in ci.methods]
+        r12.check(not defined, f"{ci.module.relpath}:{ci.node.lineno}:{ci.name}", cq, f"{ci.name} inherits object identity for ==/hash", why=f"defines {defined}: two distinct items that compare equal (overprinted text: same box, same characters) collapse into one in Plane.find's seen-set, in uniq() and in the line -> box dictionary of group_textlines, and one of them disappears from the page")
     # ---------------------------------------------------------------- R10 (shared with C20)
     from .c20 import plane_membership_rule
 
